@@ -491,6 +491,16 @@ const preludeInts = `
 (define-fun maxI ((x Int) (y Int)) Int (ite (>= x y) x y))
 (define-fun pow2 ((k Int)) Int (ite (= k 0) 1 (ite (= k 1) 2 (ite (= k 2) 4 (ite (= k 3) 8 (ite (= k 4) 16 (ite (= k 5) 32 (ite (= k 6) 64 (ite (= k 7) 128 (ite (= k 8) 256 (ite (= k 9) 512 (ite (= k 10) 1024 0))))))))))))
 (declare-fun bandI (Int Int) Int)
+(assert (forall ((a Int)) (! (= (bandI a 1) (mod a 2)) :pattern ((bandI a 1)))))
+(assert (forall ((a Int)) (! (= (bandI a 3) (mod a 4)) :pattern ((bandI a 3)))))
+(assert (forall ((a Int)) (! (= (bandI a 7) (mod a 8)) :pattern ((bandI a 7)))))
+(assert (forall ((a Int)) (! (= (bandI a 15) (mod a 16)) :pattern ((bandI a 15)))))
+(assert (forall ((a Int)) (! (= (bandI a 31) (mod a 32)) :pattern ((bandI a 31)))))
+(assert (forall ((a Int)) (! (= (bandI a 63) (mod a 64)) :pattern ((bandI a 63)))))
+(assert (forall ((a Int)) (! (= (bandI a 127) (mod a 128)) :pattern ((bandI a 127)))))
+(assert (forall ((a Int)) (! (= (bandI a 255) (mod a 256)) :pattern ((bandI a 255)))))
+(assert (forall ((a Int)) (! (= (bandI a 511) (mod a 512)) :pattern ((bandI a 511)))))
+(assert (forall ((a Int)) (! (= (bandI a 1023) (mod a 1024)) :pattern ((bandI a 1023)))))
 (declare-fun dyntype (Int) Int)
 `
 
